@@ -144,3 +144,15 @@ package cmd
 //@   ensures prefix-lengths-fit: 0 <= conf.IPv4SubnetKeyLen && conf.IPv4SubnetKeyLen <= 32 && 0 <= conf.IPv6SubnetKeyLen && conf.IPv6SubnetKeyLen <= 128
 //@   ensures no-division-by-zero: conf.ResponseSizeEstimate > 0
 //@   ensures counts-fit-a-ring: conf.IPv4Count < 9223372036854775807 && conf.IPv6Count < 9223372036854775807
+
+// The UDP response limit is later converted to sixteen bits (server.go): an
+// accepted value must survive that conversion unchanged and non-zero, or the
+// servers would run with a limit of zero (every UDP answer truncated to
+// nothing).  Timeouts must be positive.
+//@ func (*dnsConfig).validate
+//@   property C20
+//@   nilrecv
+//@   ensures nil-section-rejected: c == nil ==> err != nil
+//@   ensures accepted-is-serviceable: err == nil ==> c.ReadTimeout.Duration > 0 && c.TCPIdleTimeout.Duration > 0 && c.WriteTimeout.Duration > 0 &&
+//@             c.HandleTimeout.Duration > 0 && 1 <= c.MaxUDPResponseSize && c.MaxUDPResponseSize <= 65535 &&
+//@             wrap(c.MaxUDPResponseSize, uint16) == c.MaxUDPResponseSize
